@@ -207,6 +207,9 @@ def run(tier="quick", prop="C01", units=None, extra_rules=True):
             rets = cp.run_function(f, kept)
         except RecursionError:
             continue
+        if any("budget" in n_ or "partial" in n_ for n_ in cp.notes):
+            chk.note("E1: %s not decided (exploration incomplete: %s)" % (f.name, "; ".join(cp.notes)[:120]))
+            continue          # the reachability argument needs the complete over-approximation
         ntrim += 1
         can_empty = False
         for st in rets:
